@@ -27,7 +27,7 @@ macro_rules! int_from_int {
             };
             std::mem::forget(r);
             kani::cover!(true, "witness: end of harness reached");
-            assert!(ok, "integer decode is exact or an error, never wrapped");
+                    assert!(ok, "integer decode is exact or an error, never wrapped");
         }
     };
 }
@@ -49,7 +49,7 @@ macro_rules! opt_int_from_int {
             };
             std::mem::forget(r);
             kani::cover!(true, "witness: end of harness reached");
-            assert!(ok, "Option<integer> decode is Some(exact) or an error");
+                    assert!(ok, "Option<integer> decode is Some(exact) or an error");
         }
     };
 }
@@ -66,7 +66,7 @@ macro_rules! int_from_other {
             let is_err = r.is_err();
             std::mem::forget(r);
             kani::cover!(true, "witness: end of harness reached");
-            assert!(is_err, "integer target from a non-integer source must be an error");
+                    assert!(is_err, "integer target from a non-integer source must be an error");
         }
     };
 }
@@ -108,7 +108,7 @@ pub mod quick {
         let ok = matches!(r, Ok(None));
         std::mem::forget(r);
         kani::cover!(true, "witness: end of harness reached");
-        assert!(ok, "null decodes to None");
+            assert!(ok, "null decodes to None");
     }
 
     #[kani::proof]
@@ -119,7 +119,7 @@ pub mod quick {
         let ok = matches!(r, Ok(v) if v == b);
         std::mem::forget(r);
         kani::cover!(true, "witness: end of harness reached");
-        assert!(ok, "bool decodes to itself");
+            assert!(ok, "bool decodes to itself");
     }
 
     #[kani::proof]
@@ -130,7 +130,7 @@ pub mod quick {
         let ok = matches!(r, Ok(v) if v.to_bits() == f.to_bits());
         std::mem::forget(r);
         kani::cover!(true, "witness: end of harness reached");
-        assert!(ok, "f64 decodes bit-exactly");
+            assert!(ok, "f64 decodes bit-exactly");
     }
 
     int_from_other!(i64_from_null, i64, FieldValue::Null);
@@ -169,6 +169,6 @@ pub mod thorough {
         let is_err = r.is_err();
         std::mem::forget(r);
         kani::cover!(true, "witness: end of harness reached");
-        assert!(is_err);
+            assert!(is_err);
     }
 }
